@@ -85,6 +85,73 @@ func init() {
 		li.readers--
 		return nil
 	}
+	// sync.Map with concrete keys (strings, ints): an association list per map object
+	smKey := func(i *interpreter, v value) value {
+		it, ok := v.(iface)
+		if !ok {
+			return v
+		}
+		switch k := it.v.(type) {
+		case string, int, int64, uint64, bool, uint8, int32:
+			return k
+		}
+		i.abort(abortUnsupported, "sync.Map with a symbolic or composite key")
+		return nil
+	}
+	smFind := func(i *interpreter, p *value, key value) int {
+		for k, e := range i.syncMaps[p] {
+			if e[0] == key {
+				return k
+			}
+		}
+		return -1
+	}
+	smInit := func(i *interpreter) {
+		if i.syncMaps == nil {
+			i.syncMaps = map[*value][][2]value{}
+		}
+	}
+	externals["(*sync.Map).Load"] = func(fr *frame, a []value) value {
+		i := fr.i
+		smInit(i)
+		p := a[0].(*value)
+		if k := smFind(i, p, smKey(i, a[1])); k >= 0 {
+			return tuple{i.syncMaps[p][k][1], true}
+		}
+		return tuple{iface{}, false}
+	}
+	externals["(*sync.Map).Store"] = func(fr *frame, a []value) value {
+		i := fr.i
+		smInit(i)
+		p := a[0].(*value)
+		key := smKey(i, a[1])
+		if k := smFind(i, p, key); k >= 0 {
+			i.syncMaps[p][k][1] = a[2]
+		} else {
+			i.syncMaps[p] = append(i.syncMaps[p], [2]value{key, a[2]})
+		}
+		return nil
+	}
+	externals["(*sync.Map).LoadOrStore"] = func(fr *frame, a []value) value {
+		i := fr.i
+		smInit(i)
+		p := a[0].(*value)
+		key := smKey(i, a[1])
+		if k := smFind(i, p, key); k >= 0 {
+			return tuple{i.syncMaps[p][k][1], true}
+		}
+		i.syncMaps[p] = append(i.syncMaps[p], [2]value{key, a[2]})
+		return tuple{a[2], false}
+	}
+	externals["(*sync.Map).Delete"] = func(fr *frame, a []value) value {
+		i := fr.i
+		smInit(i)
+		p := a[0].(*value)
+		if k := smFind(i, p, smKey(i, a[1])); k >= 0 {
+			i.syncMaps[p] = append(i.syncMaps[p][:k:k], i.syncMaps[p][k+1:]...)
+		}
+		return nil
+	}
 	// sync.Pool: a per-path free list (the most recently returned object is handed out first,
 	// which is what one goroutine observes between garbage collections); empty: New()
 	externals["(*sync.Pool).Get"] = func(fr *frame, a []value) value {
